@@ -335,7 +335,20 @@ func TestDrv_C01Points(t *testing.T) {
 				h = r.Uint64()
 			}
 		}
-		w, s := vegeta.ConstantPacer{Freq: int(f), Per: time.Duration(p)}.Pace(time.Duration(e), h)
+		var w time.Duration
+		var s bool
+		panicked := func() (bad bool) {
+			defer func() {
+				if recover() != nil {
+					bad = true
+				}
+			}()
+			w, s = vegeta.ConstantPacer{Freq: int(f), Per: time.Duration(p)}.Pace(time.Duration(e), h)
+			return false
+		}()
+		if panicked {
+			w, s = -1, true // a value the transcription never yields: the point will not conform
+		}
 		pts = append(pts, pt{f, p, e, h, int64(w), s})
 	}
 	var sb []byte
